@@ -151,4 +151,26 @@ PROPS.update({
                    "harnesses": [{"name": "walletfault", "pkg": "harness/wallet", "driver": "MassVerif/Driver/Wallet.lean",
                                   "quick": {"n": 1, "len": 3, "focus": "C12"}, "thorough": {"n": 25, "len": 5, "focus": "C12"},
                                   "search": {"n": 4, "len": 4, "focus": "C12"}, "timeout": 3000}]}),
+    "C14": {
+        "props": ["MassVerif.Props.C14"],
+        "harnesses": [{"name": "walletconc", "pkg": "harness/walletconc", "race": True, "env": {"GORACE": "halt_on_error=1"},
+                       "crash_key": "data-race-or-fatal-error", "replayable": False,
+                       "quick": {"n": 12, "len": 12}, "thorough": {"n": 300, "len": 30}, "search": {"n": 80, "len": 20}}],
+        "level_text": "PARTIAL by nature. Proof (Lean 4): (1) regenerated structural facts, decided by `decide`: every exported keystore-manager "
+                      "method that touches shared state is one critical section of the manager mutex (Lock(); defer Unlock() as its first "
+                      "two statements) and every AddrManager method touching the address map one of the AddrManager mutex; (2) for any "
+                      "object with that discipline every concurrent history is linearizable w.r.t. its sequential specification "
+                      "(Wallet.step): the callers' results are those of running the operations one at a time in critical-section order, and "
+                      "an operation that returned before another was called precedes it (C14_linearizable, C14_real_time, by induction over "
+                      "arbitrary event traces). Supporting, not proof: 2-4 goroutines of random wallet operations under the Go race detector "
+                      "(a race report or fatal runtime error kills the harness = violation), invariant oracles, reopen comparison.",
+        "level_note": "Outside any model: the Go memory model itself; races inside goleveldb/mass-core; unexported helpers called without "
+                      "the lock by other packages. The getters Name/Remarks/AddrUse/KeyScope of AddrManager read fields without a lock "
+                      "(Remarks races with ChangeRemark; not exercised, recorded in DESIGN.md).",
+        "trusted_base": ["sync.Mutex provides mutual exclusion (critical sections are modelled as atomic events)",
+                         "the extractor's lock-on-entry pattern match (go/ast)"],
+        "assumptions": ["a method body that starts with mu.Lock(); defer mu.Unlock() is one critical section",
+                        "dynamic part is schedule sampling, labelled supporting evidence only"],
+        "technique": "Lean 4 theorems (linearizability of lock-disciplined objects + regenerated lock facts); race-detector runs as supporting search",
+    },
 })
